@@ -192,6 +192,9 @@ pub fn run(cfg: &Cfg) -> i32 {
     }
     let mut sampled = 0;
     for (si, c) in stories.iter().enumerate() {
+        if !cfg.mine(si as u64) {
+            continue;
+        }
         for h in 0..nhist {
             let mut rng = Rng::derive(cfg.seed, "C02-hist", (si * 100 + h) as u64);
             let hc = HistCfg {
@@ -227,8 +230,8 @@ pub fn run(cfg: &Cfg) -> i32 {
                 check_history(&mut rep, c, &host, &hist.ops, &hist.recs, &hist.situ, &boundaries)
             }));
             if r.is_err() {
-                rep.violation(
-                    "save-load/panic",
+                rep.panic_caught(
+                    "save-load",
                     json!({"program": c.name, "source": c.src, "history": hist.ops.iter().map(|o| o.show()).collect::<Vec<_>>()}),
                 );
             }
